@@ -88,9 +88,9 @@ def r3(ctx):
     T = 'ntp_proto::time_types::PollInterval'
     inc = [v for _, v in ret_assigns(P.body(T + '::inc'))]
     dec = [v for _, v in ret_assigns(P.body(T + '::dec'))]
-    ctx.check('PollInterval::inc|shape', inc == ['Ord::min(PollInterval{0: (self.0 + 1)}, limits.max)'],
+    ctx.check('PollInterval::inc|shape', inc in (['Ord::min(PollInterval{0: (self.0 + 1)}, limits.max)'], ['Ord::min(PollInterval{0: num::saturating_add(self.0, 1)}, limits.max)']),
               'PollInterval::inc is %s' % inc, sample=inc)
-    ctx.check('PollInterval::dec|shape', dec == ['Ord::max(PollInterval{0: (self.0 - 1)}, limits.min)'],
+    ctx.check('PollInterval::dec|shape', dec in (['Ord::max(PollInterval{0: (self.0 - 1)}, limits.min)'], ['Ord::max(PollInterval{0: num::saturating_sub(self.0, 1)}, limits.min)']),
               'PollInterval::dec is %s' % dec, sample=dec)
     g = P.body(KS + '::SourceState::get_desired_poll')
     for s, v in ret_assigns(g):
